@@ -238,6 +238,15 @@ import itertools  # noqa: E402
 from sa import pyfacts as pf  # noqa: E402
 
 
+_NEG = {"Lt": "GtE", "LtE": "Gt", "Gt": "LtE", "GtE": "Lt", "Eq": "NotEq", "NotEq": "Eq"}
+
+
+def negate_cond(c):
+    if c[0] == "cmp":
+        return ("cmp", _NEG[c[1]], c[2], c[3])
+    return ("or" if c[0] == "and" else "and", [negate_cond(x) for x in c[1]])
+
+
 class NotComparable(Exception):
     """the code has a shape the length interpreter does not model"""
 
@@ -352,6 +361,43 @@ class Opaque:
         return "Opaque(%s)" % (self.src or self.why)
 
 
+class ElemV:
+    """an element of a symbolic container, identified by a stable key: the key / value of `the current item`
+    of a dict that a loop runs over (K<d>, V<d>), and subscripts of those (V<d>[1][0])"""
+
+    def __init__(self, key):
+        self.key = key
+
+    def __eq__(self, o):
+        return isinstance(o, ElemV) and self.key == o.key
+
+    def __hash__(self):
+        return hash(("e", self.key))
+
+    def __repr__(self):
+        return "Elem(%s)" % self.key
+
+
+class DictView:
+    """keys / values / items of a symbolic dict named `dkey` (iteration order is irrelevant for counting)"""
+
+    def __init__(self, dkey, what):
+        self.dkey, self.what = dkey, what
+
+    def __eq__(self, o):
+        return isinstance(o, DictView) and (self.dkey, self.what) == (o.dkey, o.what)
+
+    def __hash__(self):
+        return hash(("dv", self.dkey, self.what))
+
+    def __repr__(self):
+        return "%s(%s)" % (self.what, self.dkey)
+
+
+def loop_dependent(atom, dkey):
+    return isinstance(atom, str) and ("K<%s>" % dkey in atom or "V<%s>" % dkey in atom)
+
+
 SETTINGS_LEN_METHODS = ("get_feat_usps", "ueg_vector", "get_reasonable_normalizer")
 ARRAY_PRESERVING = {"np.array", "np.asarray", "np.ascontiguousarray", "np.asfortranarray", "np.cumsum",
                     "numpy.array", "numpy.asarray", "np.copy", "np.float64", "np.abs", "np.sqrt", "np.exp"}
@@ -386,9 +432,15 @@ class Interp:
             return v.as_int
         if isinstance(v, ConstV) and isinstance(v.v, bool):
             return Lin.c(int(v.v))
+        if isinstance(v, ElemV):
+            return Lin.atom(v.key)
         return None
 
     def as_len(self, v):
+        if isinstance(v, DictView):
+            return Lin.atom("len(%s)" % v.dkey)
+        if isinstance(v, ElemV):
+            return Lin.atom("len(%s)" % v.key)
         if isinstance(v, SeqV):
             return v.len
         if isinstance(v, Poly):
@@ -477,8 +529,17 @@ class Interp:
                     env[p] = Opaque("unbound parameter", p)
             for a, d in zip(fn.args.kwonlyargs, fn.args.kw_defaults):
                 env[a.arg] = kwargs.get(a.arg, self.eval(d, {}, owner, mod) if d is not None else Opaque("kw", a.arg))
-            if any(isinstance(n, (ast.Yield, ast.YieldFrom)) for n in pf.walk_no_nested(fn)):
+            if any(isinstance(n, ast.YieldFrom) for n in pf.walk_no_nested(fn)):
                 res = Opaque("generator", fn.name)
+            elif any(isinstance(n, ast.Yield) for n in pf.walk_no_nested(fn)):
+                # a generator: the number of items it yields, counted like appends to a hidden list
+                env["__yield__"] = IntV(0)
+                rets = []
+                out = self.block(fn.body, env, rets, owner, mod)
+                if out is None or any(not (isinstance(r, ConstV) and r.v is None) for r in rets):
+                    raise NotComparable("generator %s with early return" % fn.name)
+                n_y = out.get("__yield__")
+                res = SeqV(n_y.lin, "gen") if isinstance(n_y, IntV) else Opaque("generator", fn.name)
             else:
                 rets = []
                 out = self.block(fn.body, env, rets, owner, mod)
@@ -555,7 +616,7 @@ class Interp:
                 ln = self.iter_count(self.eval(e.generators[0].iter, env, owner, mod))
                 if ln is not None:
                     return SeqV(ln, "list")
-            return Opaque("comprehension", pf.src(e)[:60])
+            return self.comprehension(e, env, owner, mod, "list")
         if isinstance(e, ast.Attribute):
             return self.eval_attr(e, env, owner, mod)
         if isinstance(e, ast.Call):
@@ -578,6 +639,15 @@ class Interp:
                 if hi is None:
                     return SeqV(ln - lmin(ln, lo), kind)
                 return SeqV(lmin(ln, hi) - lmin(ln, hi, lo), kind)
+            idxv = self.eval(e.slice, env, owner, mod)
+            if isinstance(idxv, ElemV) and idxv.key.startswith("K<") and idxv.key.endswith(">"):
+                dk = self.dict_key(base, e.value)
+                if dk is not None and idxv.key == "K<%s>" % dk:
+                    return ElemV("V<%s>" % dk)
+            if isinstance(base, ElemV):
+                ii = self.as_int(idxv)
+                if ii is not None and ii.is_const() and not isinstance(idxv, ElemV):
+                    return ElemV("%s[%d]" % (base.key, int(ii.const)))
             if isinstance(base, LitList):
                 idx = self.as_int(self.eval(e.slice, env, owner, mod))
                 if idx is not None and idx.is_const() and -len(base.items) <= idx.const < len(base.items):
@@ -591,6 +661,8 @@ class Interp:
         if isinstance(e, ast.UnaryOp):
             v = self.eval(e.operand, env, owner, mod)
             if isinstance(e.op, ast.Not):
+                if isinstance(v, tuple) and v and v[0] in ("cmp", "and", "or"):
+                    return negate_cond(v)
                 t = self.truth(v)
                 return ConstV(not t) if t is not None else Opaque("not")
             if isinstance(e.op, ast.USub):
@@ -610,7 +682,17 @@ class Interp:
         if isinstance(e, ast.Compare):
             return self.compare(e, env, owner, mod)
         if isinstance(e, ast.BoolOp):
-            vals = [self.truth(self.eval(v, env, owner, mod)) for v in e.values]
+            raw = [self.eval(v, env, owner, mod) for v in e.values]
+            vals = [self.truth(v) if not isinstance(v, tuple) else None for v in raw]
+            conds = [v for v in raw if isinstance(v, tuple) and v and v[0] in ("cmp", "and", "or")]
+            if conds:
+                if isinstance(e.op, ast.And) and not any(v is False for v in vals):
+                    # the symbolic comparisons are facts of the conjunction (the decided members are true or
+                    # opaque: an opaque member only makes the conjunction stronger)
+                    return ("and", conds)
+                if isinstance(e.op, ast.Or) and not any(v is True for v in vals) \
+                        and all(v is False or isinstance(r, tuple) for v, r in zip(vals, raw)):
+                    return ("or", conds)
             if isinstance(e.op, ast.And):
                 if any(v is False for v in vals):
                     return ConstV(False)
@@ -623,6 +705,42 @@ class Interp:
                     return ConstV(False)
             return Opaque("boolop")
         return Opaque(type(e).__name__, pf.src(e)[:60])
+
+    def comprehension(self, e, env, owner, mod, mode):
+        """[elt for a in A for b in B(a) if c]  ==  acc = []; for a in A: for b in B(a): if c: acc.append(elt)
+        (mode 'sum': acc = 0 ... acc += elt); evaluated by the loop machinery"""
+        acc = "__acc%d__" % next(self.fresh)
+        if mode == "list":
+            inner = ast.Expr(ast.Call(ast.Attribute(ast.Name(acc, ast.Load()), "append", ast.Load()), [e.elt], []))
+        else:
+            inner = ast.AugAssign(ast.Name(acc, ast.Store()), ast.Add(), e.elt)
+        body = [inner]
+        for g in reversed(e.generators):
+            for cond in reversed(g.ifs):
+                body = [ast.If(cond, body, [])]
+            body = [ast.For(g.target, g.iter, body, [], None)]
+        env2 = dict(env)
+        env2[acc] = SeqV(0, "list") if mode == "list" else IntV(0)
+        try:
+            out = self.block(body, env2, [], owner, mod)
+        except (NotComparable, Raised):
+            return Opaque("comprehension", pf.src(e)[:60])
+        v = out.get(acc) if out is not None else None
+        if isinstance(v, (SeqV, IntV)):
+            return v
+        if isinstance(v, Poly):
+            return v
+        return Opaque("comprehension", pf.src(e)[:60])
+
+    def dict_key(self, v, node=None):
+        """stable name of a symbolic dict value"""
+        if isinstance(v, Poly) and v.name:
+            return v.name
+        if isinstance(v, Opaque) and v.src:
+            return str(v.src)
+        if isinstance(v, Opaque) and node is not None:
+            return pf.src(node)
+        return None
 
     def truth(self, v):
         if isinstance(v, ConstV):
@@ -801,9 +919,13 @@ class Interp:
             if all(l is not None for l in ls):
                 return SeqV(lmin(*ls), "list")
             return Opaque("zip", pf.src(e))
+        if name in SEQ_PRESERVING and len(args) >= 1 and isinstance(args[0], DictView):
+            return args[0] if name != "enumerate" else Opaque("enumerate(dict view)")
         if name in SEQ_PRESERVING and len(args) >= 1:
             ln = self.as_len(args[0])
             return SeqV(ln, "list") if ln is not None else Opaque(name, pf.src(e))
+        if name == "sum" and len(e.args) == 1 and isinstance(e.args[0], (ast.GeneratorExp, ast.ListComp)):
+            return self.comprehension(e.args[0], env, owner, mod, "sum")
         if name == "min" and len(args) >= 2:
             ls = [self.as_int(a) for a in args]
             if all(l is not None for l in ls):
@@ -866,7 +988,10 @@ class Interp:
             if f.attr in SETTINGS_LEN_METHODS and isinstance(base, (Opaque, Poly)):
                 # inductive hypothesis for a component settings object (checked per class)
                 return SeqV(Lin.atom("nfeat(%s)" % pf.src(f.value)), "list")
-            if f.attr in ("items", "keys", "values"):
+            if f.attr in ("items", "keys", "values") and not args:
+                dk = self.dict_key(base, f.value)
+                if dk is not None:
+                    return DictView(dk, f.attr)
                 return Opaque("dict view", pf.src(e))
         if isinstance(f, ast.Name):
             if f.id in mod.functions and not star:
@@ -886,6 +1011,12 @@ class Interp:
         return env
 
     def record_fact(self, cond, positive, text):
+        if isinstance(cond, tuple) and cond and cond[0] in ("and", "or"):
+            # a true conjunction / a false disjunction gives each member
+            if (cond[0] == "and") == positive:
+                for c in cond[1]:
+                    self.record_fact(c, positive, text)
+            return
         if not isinstance(cond, tuple) or cond[0] != "cmp":
             return
         _, op, a, b = cond
@@ -921,12 +1052,22 @@ class Interp:
         elif pf.is_self_attr(target):
             self.attrs[target.attr] = val
         elif isinstance(target, (ast.Tuple, ast.List)):
-            for el in target.elts:
-                self.assign(el.value if isinstance(el, ast.Starred) else el, Opaque("unpacked"), env, owner, mod)
+            for i, el in enumerate(target.elts):
+                if isinstance(val, ElemV) and not any(isinstance(x, ast.Starred) for x in target.elts):
+                    sub = ElemV("%s[%d]" % (val.key, i))
+                else:
+                    sub = Opaque("unpacked")
+                self.assign(el.value if isinstance(el, ast.Starred) else el, sub, env, owner, mod)
         elif isinstance(target, ast.Subscript):
             pass  # element store: length unchanged
 
     def stmt(self, st, env, rets, owner, mod):
+        if isinstance(st, ast.Expr) and isinstance(st.value, ast.Yield):
+            if st.value.value is not None:
+                self.eval(st.value.value, env, owner, mod)
+            cur = env.get("__yield__")
+            env["__yield__"] = IntV(cur.lin + 1) if isinstance(cur, IntV) else Opaque("yield count")
+            return env
         if isinstance(st, ast.Expr):
             v = st.value
             if isinstance(v, ast.Call) and isinstance(v.func, ast.Attribute) and v.func.attr in ("append", "extend"):
@@ -1083,8 +1224,24 @@ class Interp:
             elif isinstance(cur, IntV):
                 tracked[name] = ("int", cur.lin)
                 body_env[name] = IntV(0)
+        if any(isinstance(n, ast.Yield) for n in ast.walk(st)) and isinstance(env.get("__yield__"), IntV):
+            tracked["__yield__"] = ("int", env["__yield__"].lin)
+            body_env["__yield__"] = IntV(0)
+            stored = stored | {"__yield__"}
         for t in targets:
             body_env[t] = Opaque("loop variable", t)
+        dkey = None
+        if isinstance(it, DictView):
+            dkey = it.dkey
+            tg = st.target
+            if it.what == "keys" and isinstance(tg, ast.Name):
+                body_env[tg.id] = ElemV("K<%s>" % dkey)
+            elif it.what == "values" and isinstance(tg, ast.Name):
+                body_env[tg.id] = ElemV("V<%s>" % dkey)
+            elif it.what == "items" and isinstance(tg, ast.Tuple) and len(tg.elts) == 2:
+                for el, kk in zip(tg.elts, ("K", "V")):
+                    if isinstance(el, ast.Name):
+                        body_env[el.id] = ElemV("%s<%s>" % (kk, dkey))
         saved_attrs = dict(self.attrs)
         try:
             out = self.block(st.body, body_env, rets, owner, mod)
@@ -1108,6 +1265,21 @@ class Interp:
                     delta = simplify(after.len, self.facts)
                 elif kind == "int" and isinstance(after, IntV):
                     delta = simplify(after.lin, self.facts)
+                if delta is not None and not delta.uncertain() and count is not None and dkey is not None \
+                        and any(loop_dependent(a, dkey) for a in delta.atoms()):
+                    # sum over the items of the dict: linear, so each item-dependent atom becomes its own sum
+                    tot = count.scale(delta.const)
+                    okk = True
+                    for a, c in delta.terms:
+                        if isinstance(a, str) and loop_dependent(a, dkey):
+                            tot = tot + Lin.atom("sum<%s>(%s)" % (dkey, a)).scale(c)
+                        else:
+                            okk = False  # item-independent symbol times a symbolic count: not linear
+                    if okk:
+                        new_env[name] = SeqV(base + tot, "list") if kind == "seq" else IntV(base + tot)
+                        continue
+                    new_env[name] = self.fresh_sym(name)
+                    continue
                 if delta is not None and not delta.uncertain() and count is not None:
                     if delta.is_const():
                         tot = count.scale(delta.const)
